@@ -280,6 +280,96 @@ example :
     (mergeLayers [] [l1, l2]).map (fun ls => ls.map dumpLayer) = .ok ["72:4096:1:1,1,09,6b=u5/-,2,-,6b=i5"] := by
   decide
 
+/-! ## output order: ascending by layer name (the `BTreeMap` of `merge_tiles`) -/
+
+theorem insertByName_perm (l : Layer) : ∀ (ls : List Layer), (insertByName l ls).Perm (l :: ls) := by
+  intro ls
+  induction ls with
+  | nil => exact List.Perm.refl _
+  | cons x t ih =>
+    simp only [insertByName]
+    split
+    · exact (List.Perm.cons x ih).trans (List.Perm.swap l x t)
+    · exact List.Perm.refl _
+
+theorem sortByName_perm : ∀ (ls : List Layer), (sortByName ls).Perm ls := by
+  intro ls
+  induction ls with
+  | nil => exact List.Perm.refl _
+  | cons x t ih =>
+    simp only [sortByName]
+    exact (insertByName_perm x _).trans (List.Perm.cons x ih)
+
+/-- no later layer has a smaller name -/
+def NameSorted (ls : List Layer) : Prop := ls.Pairwise (fun a b => bytesLt b.name a.name = false)
+
+theorem insertByName_sorted (l : Layer) : ∀ (ls : List Layer), NameSorted ls → NameSorted (insertByName l ls) := by
+  intro ls
+  induction ls with
+  | nil => intro _; simp [insertByName, NameSorted]
+  | cons x t ih =>
+    intro hs
+    unfold NameSorted at hs
+    rw [List.pairwise_cons] at hs
+    obtain ⟨hx, ht⟩ := hs
+    simp only [insertByName]
+    split
+    · rename_i hlt
+      unfold NameSorted
+      rw [List.pairwise_cons]
+      refine ⟨?_, ih ht⟩
+      intro y hy
+      rcases (List.mem_cons.mp ((insertByName_perm l t).subset hy)) with e | e
+      · subst e; exact bytesLt_asymm _ _ hlt
+      · exact hx y e
+    · rename_i hnlt
+      have hnlt' : bytesLt x.name l.name = false := by simpa using hnlt
+      unfold NameSorted
+      rw [List.pairwise_cons, List.pairwise_cons]
+      refine ⟨?_, hx, ht⟩
+      intro y hy
+      rcases List.mem_cons.mp hy with e | e
+      · subst e; exact hnlt'
+      · -- y after x: if y < l then y < x, contradiction
+        cases hyl : bytesLt y.name l.name with
+        | false => rfl
+        | true =>
+          have hyx : bytesLt y.name x.name = true := by
+            by_cases hxl : x.name = l.name
+            · rw [hxl]; exact hyl
+            · exact bytesLt_trans _ _ _ hyl (bytesLt_total _ _ hxl hnlt')
+          rw [hx y e] at hyx
+          exact absurd hyx (by simp)
+
+theorem sortByName_sorted : ∀ (ls : List Layer), NameSorted (sortByName ls) := by
+  intro ls
+  induction ls with
+  | nil => simp [sortByName, NameSorted]
+  | cons x t ih => exact insertByName_sorted x _ ih
+
+/-- with distinct names the sorted list is strictly increasing by name -/
+theorem sorted_strict (ls : List Layer) (hs : NameSorted ls) (hnd : (names ls).Nodup) :
+    (names ls).Pairwise (fun a b => bytesLt a b = true) := by
+  induction ls with
+  | nil => simp [names]
+  | cons x t ih =>
+    unfold NameSorted at hs
+    rw [List.pairwise_cons] at hs
+    simp only [names, List.map_cons, List.nodup_cons] at hnd ⊢
+    rw [List.pairwise_cons]
+    refine ⟨?_, ih hs.2 hnd.2⟩
+    intro n hn
+    obtain ⟨y, hy, rfl⟩ := List.mem_map.mp hn
+    have hne : x.name ≠ y.name := by
+      intro e
+      exact hnd.1 (List.mem_map.mpr ⟨y, hy, e.symm⟩)
+    cases h : bytesLt x.name y.name with
+    | true => rfl
+    | false =>
+      have := bytesLt_total _ _ hne h
+      rw [hs.1 y hy] at this
+      exact absurd this (by simp)
+
 /-! ## from source blobs to the merged tile -/
 
 /-- all source blobs decoded, in source order -/
@@ -332,13 +422,16 @@ theorem mergeBlobs_layers : ∀ (blobs : List Bytes) (acc out : List Layer), mer
         exact (mergeLayers_append _ _ _ _).mpr ⟨acc1, hm, h2⟩
 
 /-- **C10.**  Whenever the merged operation delivers a tile, all present source blobs decode, and
-    with `ins` = their layers in source order: one output layer per distinct name in `ins`; each output
-    layer holds the concatenation, in source order, of the features of the equally named input layers
-    with id, geometry type, geometry bytes and property set preserved (sources whose tags are valid). -/
+    with `ins` = their layers in source order: the output layers are in strictly ascending order of
+    their names (so: one layer per name), the names are exactly the names occurring in `ins`, and each
+    output layer holds the concatenation, in source order, of the features of the equally named input
+    layers with id, geometry type, geometry bytes and property set preserved (sources whose tags are
+    valid). -/
 theorem merged_tile_spec (srcs : List (Option Bytes)) (t : Tile) (h : mergedTile srcs = .ok (some t)) :
     ∃ ts, decodeAll (srcs.filterMap id) = .ok ts ∧
       ((∀ l ∈ ts.flatMap (·.layers), ∃ s, semF l = some s) →
-        (names t.layers).Nodup ∧ (∀ n, n ∈ names t.layers ↔ n ∈ names (ts.flatMap (·.layers))) ∧
+        (names t.layers).Pairwise (fun a b => bytesLt a b = true) ∧
+        (∀ n, n ∈ names t.layers ↔ n ∈ names (ts.flatMap (·.layers))) ∧
         ∀ l ∈ t.layers, ∃ s, semF l = some s ∧ concatSem (sel l.name (ts.flatMap (·.layers))) = some s) := by
   unfold mergedTile at h
   split at h
@@ -350,6 +443,26 @@ theorem merged_tile_spec (srcs : List (Option Bytes)) (t : Tile) (h : mergedTile
       simp [hm] at h
       subst h
       obtain ⟨ts, h1, h2⟩ := mergeBlobs_layers _ _ _ hm
-      exact ⟨ts, h1, fun hv => merge_layers_features _ _ hv h2⟩
+      refine ⟨ts, h1, fun hv => ?_⟩
+      obtain ⟨hnd, hmem, hsem⟩ := merge_layers_features _ _ hv h2
+      have hperm := sortByName_perm ls
+      have hnperm : (names (sortByName ls)).Perm (names ls) := List.Perm.map _ hperm
+      refine ⟨sorted_strict _ (sortByName_sorted ls) (hnperm.nodup_iff.mpr hnd), ?_, ?_⟩
+      · intro n
+        rw [← hmem n]
+        exact hnperm.mem_iff
+      · intro l hl
+        exact hsem l (hperm.subset hl)
+
+/-- the order of the output layers does not depend on the order of the sources -/
+theorem merged_order_canonical (a b : List Layer) (h : a.Perm b) (hnd : (names a).Nodup) :
+    names (sortByName a) = names (sortByName b) := by
+  have ha := sorted_strict _ (sortByName_sorted a) ((List.Perm.map _ (sortByName_perm a)).nodup_iff.mpr hnd)
+  have hndb : (names b).Nodup := (List.Perm.map _ h).nodup_iff.mp hnd
+  have hb := sorted_strict _ (sortByName_sorted b) ((List.Perm.map _ (sortByName_perm b)).nodup_iff.mpr hndb)
+  have hp : (names (sortByName a)).Perm (names (sortByName b)) :=
+    ((List.Perm.map _ (sortByName_perm a)).trans (List.Perm.map _ h)).trans (List.Perm.map _ (sortByName_perm b)).symm
+  exact List.Perm.eq_of_pairwise (fun x y _ _ hxy hyx => by
+    have := bytesLt_asymm _ _ hxy; rw [hyx] at this; exact absurd this (by simp)) ha hb hp
 
 end VtProps.C10
